@@ -142,6 +142,11 @@ func execute(cs Case, choose sched.Chooser) (sched.Result, *runInfo) {
 	return r, info
 }
 
+// emitEvery: explored schedules are all checked by the oracle; one in emitEvery of the passing ones is
+// also sent to the Coq model (the model replay is the expensive part).
+var emitEvery = 1
+var emitCount int
+
 func report(c *core.Ctx, cs Case, r sched.Result, info *runInfo) {
 	cs.Choices = r.Chosen
 	c.Begin(cs)
@@ -182,6 +187,11 @@ func report(c *core.Ctx, cs Case, r sched.Result, info *runInfo) {
 		c.Fail(msg, describe(info))
 	}
 	// Coq case
+	emitCount++
+	if emitEvery > 1 && emitCount%emitEvery != 0 && c.Stats["oracle_failures"] == 0 {
+		c.Count("explored_oracle_only")
+		return
+	}
 	progs := make([]string, len(cs.Progs))
 	results := make([]string, len(cs.Progs))
 	for t := range cs.Progs {
@@ -439,17 +449,16 @@ func run(c *core.Ctx) {
 		}
 	}
 	maxPre := c.N(2, 3, 2)
-	limit := c.N(25, 400, 150)
+	limit := c.N(300, 1500, 600)
 	nlay := 7
-	for bi, b := range battery {
+	emitEvery, emitCount = c.N(60, 60, 1), 0 // all explored schedules go through the oracle, one in 60 through the model
+	for _, b := range battery {
 		for lay := 0; lay < nlay; lay++ {
-			if c.Tier == "quick" && (bi+lay)%4 != int(c.Seed%4) {
-				continue // quick tier: a quarter of the battery x layouts per run, rotating with the seed
-			}
 			cs := Case{Prefix: layout(c, lay), Progs: [][]CallSpec{b.a, b.b}, Kind: fmt.Sprintf("explore_l%d", lay)}
 			exploreCase(c, cs, maxPre, limit)
 		}
 	}
+	emitEvery = 1
 	// 3. random schedules of random 2-4 thread programs
 	for i := c.N(400, 30000, 6000); i > 0; i-- {
 		nt := 2 + c.Rng.Intn(3)
@@ -466,54 +475,17 @@ func run(c *core.Ctx) {
 	}
 }
 
-// exploreCase enumerates schedules of the concurrent part; the set-up prefix runs alone first
-// (thread 0 is forced while it still executes prefix calls).
+// exploreCase enumerates, breadth-first by number of pre-emptions, schedules of the concurrent part;
+// the set-up prefix runs alone first (thread 0 is forced while it still executes prefix calls).
 func exploreCase(c *core.Ctx, cs Case, maxPre, limit int) {
-	// run the prefix deterministically: find how many steps it takes with thread 0 alone
-	var base []int
-	{
-		probe := Case{Prefix: cs.Prefix, Progs: [][]CallSpec{{}}, Kind: "probe"}
-		r, _ := execute(probe, sched.NonPreemptive)
-		base = r.Chosen // all zeros
-	}
-	count := 0
-	var rec func(prefix []int) bool
-	rec = func(prefix []int) bool {
-		if count >= limit {
-			return false
-		}
+	probe := Case{Prefix: cs.Prefix, Progs: [][]CallSpec{{}}, Kind: "probe"}
+	r0, _ := execute(probe, sched.NonPreemptive)
+	base := r0.Chosen
+	sched.ExploreBFS(func(prefix []int) sched.Result {
 		r, info := execute(cs, sched.Prefix(prefix))
-		count++
 		report(c, cs, r, info)
-		for j := len(prefix); j < len(r.Chosen); j++ {
-			if j < len(base) {
-				continue
-			}
-			pre := 0
-			for i := len(base) + 1; i < j; i++ {
-				if r.Chosen[i] != r.Chosen[i-1] && has(r.Enabled[i], r.Chosen[i-1]) {
-					pre++
-				}
-			}
-			for _, alt := range r.Enabled[j] {
-				if alt == r.Chosen[j] {
-					continue
-				}
-				p := pre
-				if j > len(base) && has(r.Enabled[j], r.Chosen[j-1]) && alt != r.Chosen[j-1] {
-					p++
-				}
-				if p > maxPre {
-					continue
-				}
-				if !rec(append(append([]int{}, r.Chosen[:j]...), alt)) {
-					return false
-				}
-			}
-		}
-		return true
-	}
-	rec(base)
+		return r
+	}, base, maxPre, limit, func(sched.Result) {})
 }
 
 func has(s []int, x int) bool {
